@@ -31,6 +31,7 @@ var lexExtraShapes = []shape{
 	{"re-esc", []string{"/", "\\", "/", "@lower", "/"}}, {"mbword", []string{"@lead2", "@cont", "@lower"}},
 	{"q-open", []string{"\"", "@lower"}}, {"re-open", []string{"/", "@lower"}}, {"badchar", []string{"@bad"}},
 	{"minus-mb", []string{"-", "@lead2", "@cont"}}, {"esc-mb", []string{"\\", "@lead2", "@cont"}},
+	{"q-crlf", []string{"\"", "@lower", "\r\n", "@lower", "\""}}, {"re-crlf", []string{"/", "\r\n", "/"}}, {"esc-cr", []string{"@lower", "\\", "\r"}},
 }
 
 func init() {
@@ -49,11 +50,13 @@ func H_LexTokens() {
 	for i := 0; i < k; i++ {
 		c := rtChoose("shape", len(all))
 		if i > 0 {
-			switch rtChoose("gap", 3) {
+			switch rtChoose("gap", 4) {
 			case 0:
 				buf = append(buf, ' ')
 			case 1:
 				buf = append(buf, '\t', '\n')
+			case 2:
+				buf = append(buf, '\r', '\n')
 			}
 		}
 		buf = shapeBytes(buf, all[c])
